@@ -228,4 +228,28 @@ def run(chk, facts_dir, tier):
             chk.ok("R12.4", "progress_to(append.last_partition_sequence + 1) on the Ok arm", wtb.where(pg[0][1]["line"]))
         else:
             chk.fail("R12.4", PRA + "write_transaction", "progress-arg", "the queue is not advanced to last_partition_sequence + 1 of a successful append: %s" % show(arg)[:100], wtb, pg[0][1]["line"])
+    # ---------------- R12.6 a buffered write is only discarded once every one of its senders has expired
+    chk.rule("R12.6", "EXPIRY IS PER SENDER: the replicator removes an entry from the out-of-order buffer without applying or answering it only on the `false` edge of "
+                      "BufferedWrite::garbage_collect(buffer_timeout) for that entry (garbage_collect drops the reply senders that are older than the timeout and says whether any "
+                      "is left); expiring on the arrival time of the first attempt drops a write whose retry was merged in moments ago")
+    n6 = 0
+    for b in prog.family(PRA + "detect_and_handle_gaps"):
+        ev6 = Ev(prog, b)
+        gcs = [(bi, t) for bi, t in b.calls() if (b.callee_decl(t) or "").endswith("BufferedWrite::garbage_collect")]
+        for bi, t in b.calls():
+            c = b.callee_decl(t) or ""
+            if not (c.endswith("OccupiedEntry::<'a, K, V, A>::remove") or c.endswith("OccupiedEntry::<'a, K, V, A>::remove_entry") or (c.rsplit("::", 1)[-1] in ("remove", "pop_first", "remove_entry") and "BTreeMap" in c)):
+                continue
+            n6 += 1
+            ok6 = False
+            for gb, gt in gcs:
+                sw = switch_on(b, gt["target"], gt["dest"]["l"]) if gt.get("target") is not None else None
+                if sw and edge_dominates(b, gt["target"], sw[1], bi):
+                    ok6 = True
+            if ok6:
+                chk.ok("R12.6", "expired entry removed only when garbage_collect left no live sender", b.where(t["line"]))
+            else:
+                chk.fail("R12.6", PRA + "detect_and_handle_gaps", "expiry-without-garbage-collect", "a buffered write is removed from the queue without `garbage_collect` having found all its "
+                         "senders expired: a retry that was merged into it is dropped unanswered and the write is never applied", b, t["line"])
+    chk.floor("R12.6", n6, 1)
     return {}
